@@ -194,6 +194,52 @@ static void read_dfr8_check(const char *path, const char *pair)
 }
 
 /* ------------------------------------------------------------------------------------------------ DFR8 -> GR (+ DFP, raw RLE) */
+/* DFR8getimage takes the CALLER's buffer dimensions: into a buffer that is wider and/or taller than the image every
+   pixel (r, c) must land at r * xdim_buf + c (bytes of the buffer outside the image area are unspecified) and nothing
+   beyond xdim_buf * ydim_buf may be written.  `T xapi spread` ties the in-place row spreading to the model. */
+static void read_dfr8_wide_check(const char *path, const char *pair)
+{
+    char key[64];
+    DFR8restart();
+    int n = DFR8nimages(path);
+    int j = -1;
+    for (int i = 0; i < n; i++) {
+        do j++; while (j < nxi && (xi[j].ncomp != 1 || xi[j].hidden));
+        if (j >= nxi) break;
+        XImg *m = &xi[j];
+        int32 x = -1, y = -1; int ispal = -1;
+        if (DFR8getdims(path, &x, &y, &ispal) == FAIL) break; /* reported by read_dfr8_check */
+        if (x != m->xdim || y != m->ydim) break;
+        int32 bx = x, by = y;
+        switch ((int)hk_range(0, 5)) {
+            case 0: bx = x + 1; break;                                 /* rows overlap their old place as much as possible */
+            case 1: bx = x + (int32)hk_range(1, x > 1 ? x - 1 : 1); break; /* width < xdim < 2*width */
+            case 2: bx = 2 * x + (int32)hk_range(-1, 1); if (bx <= x) bx = x + 1; break;
+            case 3: bx = x + (int32)hk_range(1, 2 * x); break;
+            case 4: by = y + (int32)hk_range(1, 3); break;             /* taller only */
+            default: bx = x + (int32)hk_range(1, 2 * x); by = y + (int32)hk_range(0, 3); break;
+        }
+        size_t cap = (size_t)bx * (size_t)by;
+        uint8_t *buf = malloc(cap + 16), pb[768 + 8];
+        memset(buf, 0xA5, cap + 16); memset(pb, 0x5A, sizeof pb);
+        snprintf(key, sizeof key, "%s:wide-buffer", pair);
+        if (DFR8getimage(path, buf, bx, by, m->haspal ? pb : NULL) == FAIL) hk_fail(key, "DFR8getimage of a %dx%d image into a %dx%d buffer failed", (int)x, (int)y, (int)bx, (int)by);
+        else {
+            int bad = -1;
+            for (int r = 0; r < y && bad < 0; r++) if (memcmp(buf + (size_t)r * bx, m->pix + (size_t)r * x, (size_t)x)) bad = r;
+            if (bad >= 0) hk_fail(key, "%dx%d image (comp %d) read into a %dx%d buffer: row %d differs from the image GR returns", (int)x, (int)y, (int)m->comp, (int)bx, (int)by, bad);
+            for (int g = 0; g < 16; g++) if (buf[cap + g] != 0xA5) { snprintf(key, sizeof key, "%s:wide-buffer-overrun", pair); hk_fail(key, "DFR8getimage wrote beyond the %dx%d buffer", (int)bx, (int)by); break; }
+            if (m->haspal && memcmp(pb, m->pal, 768)) { snprintf(key, sizeof key, "%s:lut", pair); hk_fail(key, "palette differs (wide buffer read)"); }
+            printf("T xapi spread %d %d %d %d ", (int)x, (int)y, (int)bx, (int)by); hk_hex(m->pix, (size_t)(x * y)); printf(" => ");
+            if (x * y == 0) printf("-"); else for (int r = 0; r < y; r++) for (int c = 0; c < x; c++) printf("%02x", buf[(size_t)r * bx + c]);
+            printf("\n");
+            hk_stat(bx > x ? (bx < 2 * x ? "dfr8_wide_overlapping" : "dfr8_wide") : "dfr8_tall", 1);
+        }
+        free(buf);
+    }
+    DFR8restart();
+}
+
 static void case_dfr8_gr(void)
 {
     const char *path = strdup(cpath("dfr8"));
@@ -215,6 +261,7 @@ static void case_dfr8_gr(void)
     if (nxi == 0) { free((void *)path); return; }
     read_gr_check(path, "xapi-dfr8-gr", 1);
     read_dfr8_check(path, "xapi-dfr8-dfr8");
+    read_dfr8_wide_check(path, "xapi-dfr8-dfr8");
     /* DFP sees the palettes of the images in file order */
     {
         int np = 0; for (int j = 0; j < nxi; j++) if (xi[j].haspal) np++;
@@ -369,6 +416,7 @@ static void case_gr_dfr8(void)
     if (write_gr_images(path, "xapi-gr-dfr8") == 0) {
         read_gr_check(path, "xapi-gr-gr", 0);
         read_dfr8_check(path, "xapi-gr-dfr8");
+        read_dfr8_wide_check(path, "xapi-gr-dfr8");
         vgroup_view_gr(path);
         int np = 0; for (int j = 0; j < nxi; j++) if (xi[j].haspal) np++;
         DFPrestart();
@@ -413,6 +461,24 @@ static void read_df24_check(const char *path, const char *pair)
         free(buf); free(want);
     }
     DF24restart();
+    /* DF24getimage / DFGRgetimage do not spread rows: DFGRIgetimlut wants the exact dimensions; a larger buffer is
+       refused and nothing is written into it */
+    if (n > 0 && n24 > 0) {
+        int32 x = -1, y = -1; int il = -1;
+        if (DF24getdims(path, &x, &y, &il) != FAIL && x > 0 && y > 0) {
+            int32 bx = x + (int32)hk_range(0, 2), by = y + (int32)hk_range(bx == x ? 1 : 0, 2);
+            size_t cap = (size_t)bx * by * 3;
+            uint8_t *buf = malloc(cap + 8); memset(buf, 0xA5, cap + 8);
+            int r = DF24getimage(path, buf, bx, by);
+            size_t k = 0; while (k < cap + 8 && buf[k] == 0xA5) k++;
+            snprintf(key, sizeof key, "%s:larger-buffer", pair);
+            if (r != FAIL) hk_fail(key, "DF24getimage of a %dx%d image with buffer dimensions %dx%d succeeded", (int)x, (int)y, (int)bx, (int)by);
+            else if (k < cap + 8) hk_fail(key, "refused DF24getimage (%dx%d into %dx%d) wrote into the buffer", (int)x, (int)y, (int)bx, (int)by);
+            free(buf);
+            hk_stat("df24_larger_refused", 1);
+        }
+        DF24restart();
+    }
 }
 
 /* ------------------------------------------------------------------------------------------------ DF24 <-> GR */
